@@ -423,6 +423,68 @@ impl C10 {
             }
             Ok((a, bb)) => rep.fail("predict-error", "svc-predict", format!("{}: decision_function / predict failed: {:?} {:?}", ctx, a.err().map(|e| e.to_string()), bb.err().map(|e| e.to_string()))),
         }
+        // 6b. the label rule AT the decision boundary. Random rows never come within rounding of a zero decision
+        // value, so in one run out of four the harness walks there: bisect the segment between a row with a positive
+        // and a row with a non-positive decision value down to neighbouring floats, then query points at every binary
+        // scale around the root. Whatever the rounding of the two code paths, the label must be the larger class
+        // exactly when the decision value the model itself reports is positive.
+        if rep.violation.is_none() && case.tape.seed % 4 == 0 && classes.len() == 2 {
+            let point = |a: &Vec<f64>, b: &Vec<f64>, t: f64| -> Vec<f64> { a.iter().zip(b).map(|(x, y)| T::from_f64(x + t * (y - x)).unwrap().to_f64().unwrap()).collect() };
+            let eval = |rows: &Vec<Vec<f64>>| -> Option<(Vec<f64>, Vec<f64>)> {
+                let m: DenseMatrix<T> = mat(rows);
+                match guarded(|| (model.decision_function(&m), model.predict(&m))) {
+                    Ok((Ok(dv), Ok(lab))) => Some((dv.iter().map(|v| v.to_f64().unwrap_or(f64::NAN)).collect(), lab.iter().map(|v| v.to_f64().unwrap_or(f64::NAN)).collect())),
+                    _ => None,
+                }
+            };
+            if let Some((dv0, _)) = eval(&q) {
+                let pos = (0..q.len()).find(|i| dv0[*i] > 0.0);
+                let neg = (0..q.len()).find(|i| dv0[*i] <= 0.0);
+                if let (Some(ia), Some(ib)) = (pos, neg) {
+                    let (ra, rb) = (q[ia].clone(), q[ib].clone());
+                    let (mut lo, mut hi) = (0.0f64, 1.0f64); // dv(lo) > 0, dv(hi) <= 0
+                    let mut ok = true;
+                    for _ in 0..64 {
+                        let mid = 0.5 * (lo + hi);
+                        if mid <= lo || mid >= hi {
+                            break;
+                        }
+                        match eval(&vec![point(&ra, &rb, mid)]) {
+                            Some((dvm, _)) => if dvm[0] > 0.0 { lo = mid } else { hi = mid },
+                            None => { ok = false; break; }
+                        }
+                    }
+                    if ok {
+                        let root = 0.5 * (lo + hi);
+                        let mut ts = vec![lo, hi, root];
+                        let mut e = -52;
+                        while e <= -12 {
+                            let s = (2.0f64).powi(e);
+                            for j in 1..=3 {
+                                ts.push((root + j as f64 * s).min(1.0));
+                                ts.push((root - j as f64 * s).max(0.0));
+                            }
+                            e += 2;
+                        }
+                        let pts: Vec<Vec<f64>> = ts.iter().map(|t| point(&ra, &rb, *t)).collect();
+                        if let Some((dvp, labp)) = eval(&pts) {
+                            d.f64s(&dvp).f64s(&labp);
+                            rep.count("steps.boundary-probe-points", pts.len() as u64);
+                            rep.count("probe.boundary-probe-both-signs", (dvp.iter().any(|v| *v > 0.0) && dvp.iter().any(|v| *v <= 0.0)) as u64);
+                            let tiny = dvp.iter().filter(|v| v.abs() <= 1e-12 * (1.0 + b.abs())).count();
+                            rep.count("probe.boundary-probe-decision-within-1e-12", (tiny > 0) as u64);
+                            for i in 0..pts.len() {
+                                let want = if dvp[i] > 0.0 { classes[1] } else { classes[0] };
+                                if labp[i] != want {
+                                    rep.fail("label-rule", "svc-predict-at-boundary", format!("{}: predict({:?}) = {} although decision_function reports {:e} for the same row (classes {:?})", ctx, pts[i], labp[i], dvp[i], classes));
+                                    break;
+                                }
+                            }
+                        }
+                    }
+                }
+            }
+        }
         rep.count("steps.kernel_evals_predict", count.get() - before);
         rep.count("probe.conflicting-duplicate-sv", conflicting_dups as u64);
         rep.count("probe.no-support-vectors", inst.is_empty() as u64);
@@ -1067,7 +1129,8 @@ fn gen_case(batch: &str, index: u64, seed: u64) -> Case {
             // updates a coefficient needs to reach its bound) is 5e6..1.5e7, targets that cannot be fitted
             let n = pr.usize_in(4, 8);
             let scale = logu(&mut pr, 300.0, 1000.0);
-            let u = logu(&mut pr, 5e6, 1.5e7);
+            // the last 24 runs of the thorough tier go further: 3e7..1e8 (1e8..several 1e9 updates, minutes per fit)
+            let u = if index >= 216 { logu(&mut pr, 3e7, 1e8) } else { logu(&mut pr, 5e6, 1.5e7) };
             let c = (u / (scale * scale)).min(100.0).max(0.1);
             let x: Vec<Vec<f64>> = (0..n).map(|_| vec![scale * r.range(-1.0, 1.0)]).collect();
             let y: Vec<f64> = (0..n).map(|_| r.range(-1.5, 1.5)).collect();
@@ -1185,7 +1248,7 @@ impl Property for C10 {
             Batch { name: "svr-resonant", count: if q { 20_000 } else { 1_000_000 }, simulated: false, exhaustive: false, note: "schedule-free: tiny lattice / continuous fits whose C is tuned to the data — equal to, or 2^-j (j 20..52) above or below, the unclipped pair optimum of two training rows — and whose targets sit 2^-j off the lattice: the instants where an SMO step lands on a bound" },
             Batch { name: "svr-hard", count: if q { 48 } else { 1_500 }, simulated: false, exhaustive: false, note: "schedule-free: the slowly converging corner (C = 100, linear / quadratic / RBF kernels on features in [-3,3], n 20..60, tol 1e-3) with a 4e9-iteration fallback budget; few runs because each takes up to seconds" },
             Batch { name: "svr-hard-tight", count: if q { 12 } else { 600 }, simulated: false, exhaustive: false, note: "same corner at tol 1e-4, quadratic kernel, low noise (up to ~2e7 iterations per fit)" },
-            Batch { name: "svr-marathon", count: if q { 12 } else { 240 }, simulated: false, exhaustive: false, note: "schedule-free: converging fits that need 1e6..1e8 SMO updates (4..8 rows, one feature of magnitude 300..1000, linear kernel, C * scale^2 = 5e6..1.5e7): optimality must hold at termination however long it takes" },
+            Batch { name: "svr-marathon", count: if q { 12 } else { 240 }, simulated: false, exhaustive: false, note: "schedule-free: converging fits that need 1e6..1e8 SMO updates (4..8 rows, one feature of magnitude 300..1000, linear kernel, C * scale^2 = 5e6..1.5e7; the last 24 runs of the thorough tier 3e7..1e8, i.e. up to several 1e9 updates): optimality must hold at termination however long it takes" },
             Batch { name: "svr-large-features", count: if q { 1_500 } else { 60_000 }, simulated: false, exhaustive: false, note: "schedule-free: large kernel curvature (linear kernel on features of magnitude 30..300, quadratic on ~10), noise below epsilon, f32 and f64" },
             Batch { name: "svr-f32-resolution", count: if q { 1_500 } else { 60_000 }, simulated: false, exhaustive: false, note: "schedule-free: f32 fits whose tolerance lies below the floating-point resolution of the targets (|y| 1e3..1e5, tol 1e-3..1e-4) — the region of the repaired livelock" },
             Batch { name: "svr-f32", count: if q { 1_000 } else { 100_000 }, simulated: false, exhaustive: false, note: "schedule-free, single precision" },
